@@ -343,6 +343,7 @@ def h_repeat_l2(E, shape):
         newton_tol=E.real("newton_tol", lo=0, lo_strict=True),
         opt_tol=E.real("opt_tol", lo=0, lo_strict=True),
         penalty_update=P.PenaltyUpdate[shape.get("policy", "DualNorm")],
+        display_interval=INF,
     )
     boot.mod("timer").time = boot.Clock(E)
     solver = S.Solver(user, params)
